@@ -12,7 +12,7 @@ def nontrivial(d, t, r):
 
 
 def run(tier, seed, rep, replay=None):
-    netprops.standard_run(ID, tier, seed, rep, replay, ALGOS, nontrivial, extra_cases=families.conflict_suite, rule=
+    netprops.standard_run(ID, tier, seed, rep, replay, ALGOS, nontrivial, extra_cases=lambda tier, seed: families.conflict_suite(tier, seed) + families.name_collision_suite(tier, seed), rule=
                           "families star/mesh/mesh_plus/tree/custom x algorithms " + str(ALGOS) + " x axi/narrow-wide, "
                           "exhaustive declaration-order permutations for small stars, seeded random otherwise; "
                           "non-trivial = a router with at least two links (every accepted description has one); distinct by canonical description")
